@@ -162,8 +162,17 @@ func c16Show(m map[int]c16Ring) string {
 	return strings.Join(s, " ")
 }
 
-// shapes: counter-clockwise closed rings relative to an origin
-func c16Shape(r *Rng, ox, oy int) (ring [][2]int, holeBox [4]int) {
+
+
+// c16ShapeH: counter-clockwise closed rings relative to an origin; for the horseshoe it also returns the one hole that fits it - a horseshoe itself, stored
+// clockwise, whose bounding-box centre lies in the notch, outside the outer ring
+func c16ShapeH(r *Rng, ox, oy int) (ring [][2]int, holeBox [4]int, hole [][2]int) {
+	if r.Intn(5) == 0 {
+		ring = [][2]int{{ox, oy}, {ox + 9, oy}, {ox + 9, oy + 9}, {ox + 6, oy + 9}, {ox + 6, oy + 3}, {ox + 3, oy + 3}, {ox + 3, oy + 9}, {ox, oy + 9}, {ox, oy}}
+		hole = [][2]int{{ox + 1, oy + 1}, {ox + 1, oy + 8}, {ox + 2, oy + 8}, {ox + 2, oy + 2}, {ox + 7, oy + 2}, {ox + 7, oy + 8}, {ox + 8, oy + 8}, {ox + 8, oy + 1}, {ox + 1, oy + 1}}
+		holeBox = [4]int{ox + 1, oy + 1, ox + 2, oy + 2}
+		return
+	}
 	switch r.Intn(3) {
 	case 0: // rectangle 8x8
 		w, h := 6+r.Intn(3), 6+r.Intn(3)
@@ -283,10 +292,17 @@ func c16One(r *Rng, nOuter, nHoles, cutsO, revO, cutsI, revI, mode int) string {
 	var pieces []c16Piece
 	var truth []string
 	for k := 1; k <= nOuter; k++ {
-		ring, box := c16Shape(r, 1+(k-1)*11, 1+r.Intn(3))
+		ring, box, uhole := c16ShapeH(r, 1+(k-1)*11, 1+r.Intn(3))
 		truth = append(truth, fmt.Sprintf("O%d=%s", k, c16RingStr(ring)))
 		pieces = append(pieces, c16Cut(r, ring, "outer", true, 5, cutsO>>uint(k-1)|cutsO<<uint(k), revO>>uint(k-1))...)
 		nh := nHoles
+		if uhole != nil {
+			if nh > 0 {
+				truth = append(truth, fmt.Sprintf("I%d=%s", k, c16RingStr(uhole)))
+				pieces = append(pieces, c16Cut(r, uhole, "inner", false, 4, cutsI, revI)...)
+			}
+			continue
+		}
 		if box[2]-box[0] < 3 {
 			nh = min(nh, 1)
 		}
